@@ -1,6 +1,7 @@
-\* behaviour generation (use with -simulate num=N -depth 64): random walks, every step with exp/alts
+\* behaviour generation (use with -simulate num=N -depth 64): random walks, every step with exp/alts;
+\* boundary codes are rank + BOff (fillers below 0 / above MaxRank make the long lists)
 CONSTANTS MaxRank = 6
-  BoundSets = {{}, {1}, {3}, {5}, {1,3}, {1,5}, {3,5}, {1,3,5}, {0}, {0,1}, {0,1,3,5}, {2,3}, {3,6}, {0,1,2,3,5,6}}
+  BoundSets = {{}, {65}, {67}, {69}, {65, 67}, {65, 69}, {67, 69}, {65, 67, 69}, {64}, {64, 65}, {64, 65, 67, 69}, {66, 67}, {67, 70}, {64, 65, 66, 67, 69, 70}, {58, 59, 60, 61, 62, 63, 65, 67, 69, 71, 72, 73, 74, 75, 76, 77}, {65, 71, 72, 73, 74, 75, 76, 77, 78, 79, 80, 81, 82, 83, 84, 85, 86}, {48, 49, 50, 51, 52, 53, 54, 55, 56, 57, 58, 59, 60, 61, 62, 63, 69}, {56, 57, 58, 59, 60, 61, 62, 63, 65, 67, 71, 72, 73, 74, 75, 76, 77, 78}, {50, 51, 52, 53, 54, 55, 56, 57, 58, 59, 60, 61, 62, 63, 64, 65, 67, 69, 71, 72, 73, 74, 75, 76, 77, 78, 79, 80, 81, 82, 83, 84}, {14, 15, 16, 17, 18, 19, 20, 21, 22, 23, 24, 25, 26, 27, 28, 29, 30, 31, 32, 33, 34, 35, 36, 37, 38, 39, 40, 41, 42, 43, 44, 45, 46, 47, 48, 49, 50, 51, 52, 53, 54, 55, 56, 57, 58, 59, 60, 61, 62, 63, 67, 71, 72, 73, 74, 75, 76, 77, 78, 79, 80, 81, 82, 83, 84, 85, 86, 87, 88, 89, 90, 91, 92, 93, 94, 95, 96, 97, 98, 99, 100, 101, 102, 103, 104, 105, 106, 107, 108, 109, 110, 111, 112, 113, 114, 115, 116, 117, 118, 119, 120}, {6, 7, 8, 9, 10, 11, 12, 13, 14, 15, 16, 17, 18, 19, 20, 21, 22, 23, 24, 25, 26, 27, 28, 29, 30, 31, 32, 33, 34, 35, 36, 37, 38, 39, 40, 41, 42, 43, 44, 45, 46, 47, 48, 49, 50, 51, 52, 53, 54, 55, 56, 57, 58, 59, 60, 61, 62, 63, 64, 65, 66, 67, 69, 70, 71, 72, 73, 74, 75, 76, 77, 78, 79, 80, 81, 82, 83, 84, 85, 86, 87, 88, 89, 90, 91, 92, 93, 94, 95, 96, 97, 98, 99, 100, 101, 102, 103, 104, 105, 106, 107, 108, 109, 110, 111, 112, 113, 114, 115, 116, 117, 118, 119, 120, 121, 122, 123, 124, 125, 126}} BOff = 64
   Tables = {"D_small", "D_tiny", "D_huge", "D_frac", "I_small", "I_frac", "I_huge"}
   MMChoices = {TRUE, FALSE}
   Mode = "pipe" NSlots = 3 NKeys = 2 ReaderCfgs = {1, 2, 11, 12, 21, 22}
